@@ -25,7 +25,9 @@ def build_scenarios(tier, chk, per_hist_classes=2, budget=None):
     # the empty list and the bare row lists on every class with the full catalogue
     base = [[], [{"op": "row", "o": 0, "n": 500, "k": 0}],
             [{"op": "row", "o": 500, "n": 500, "k": 0}, {"op": "row", "o": -1000, "n": 0, "k": 1},
-             {"op": "row", "o": 500, "n": 0, "k": 2}]]
+             {"op": "row", "o": 500, "n": 0, "k": 2}],
+            # a hold stored tail-first (negative length) among ordinary ones, in time order
+            [{"op": "row", "o": -1000, "n": 500, "k": 0}, {"op": "row", "o": 0, "n": -250, "k": 1}, {"op": "row", "o": 500, "n": 500, "k": 2}]]
     for j, h in enumerate(base):
         for nm in names:
             scns.append({"id": f"b{j}", "hist": h, "classes": [nm], "cuts": cuts, "budget": 400})
